@@ -44,6 +44,8 @@ pub fn run(a: &Args) {
     let period = Duration::from_millis(a.u64("period_ms"));
     let abort_at = a.opt_u128("abort_ms").map(|x| Duration::from_millis(x as u64));
     let stop_target_at = a.opt_u128("stop_target_ms").map(|x| Duration::from_millis(x as u64));
+    let stall = a.opt_u128("stall_at_ms").map(|x| Duration::from_millis(x as u64));
+    let stall_len = Duration::from_millis(a.opt_u128("stall_ms").unwrap_or(0) as u64);
     let horizon = Duration::from_millis(a.u64("horizon_ms"));
     let log = Arc::new(Mutex::new(Vec::new()));
     let rt = tokio::runtime::Builder::new_current_thread().enable_time().start_paused(true).build().unwrap();
@@ -71,6 +73,9 @@ pub fn run(a: &Args) {
         if let Some(d) = stop_target_at {
             events.push((d, "stop_target"));
         }
+        if let Some(d) = stall {
+            events.push((d, "stall"));
+        }
         events.push((horizon, "end"));
         events.sort();
         for (d, what) in events {
@@ -81,6 +86,8 @@ pub fn run(a: &Args) {
                     H::Res(j) => j.abort(),
                 },
                 "stop_target" => target.stop(None),
+                // the executor does not get to run anything for `stall_len`: the clock jumps, tasks are polled afterwards
+                "stall" => tokio::time::advance(stall_len).await,
                 _ => {}
             }
         }
